@@ -113,7 +113,9 @@ def main():
             'guard': 'none',
             'enable': 'no change to /repo is needed: the std facade header, private-field access shims and harness modules are added to a '
                       'scratch copy of /repo/src under /verif/build on every run (tools/vbuild.py)',
-            'baseline_off_cmd': 'cd /repo && cargo test --workspace --no-fail-fast --offline',
+            'baseline_off_cmd': 'cd /repo && cargo nextest run --workspace --no-fail-fast --tool-config-file pb:/w/lib/nextest.toml --profile pb '
+                                '--test-threads 8 --offline   # the pinned command of /root/.vp/BASELINE.json; /repo is not modified at all '
+                                '(fallback: cargo test --workspace --no-fail-fast --offline -- --skip prop_op_reordering_converges)',
             'source_commits': [],
             'add_only': True,
         },
